@@ -302,6 +302,30 @@ def run_case(R, level, values, forms, rid=None, err_index=0, label="gen", max_si
     return len(resp)
 
 
+def many_pdus(R):
+    """One process decodes tens of thousands of PDUs in a row (a poller, a trap receiver);
+    each goes out of use before the next arrives, so object addresses repeat: PDU number
+    20000 still decodes to its own content."""
+    n = 20000 if R.tier == "quick" else 80000
+    for i in range(n):
+        rid = 1_000_000 + i
+        pdu = {"type": ber.PDU_RESPONSE, "request_id": rid, "error_status": 0, "error_index": 0, "varbinds": [((1, 3, 6, 1, 4, 1, 4242, 4, i % 97), ("int", i)), ((1, 3, 6, 1, 4, 1, 4242, 4, 200), ("str", b"%d" % i))]}
+        datagram = ber.enc_community_message(1, b"public", pdu)
+        try:
+            seq, _ = x690.decode(datagram)
+            content = seq[2].value
+            got = (content.request_id, [(rig.oid_t(vb.oid), to_tuple(vb.value)) for vb in content.varbinds])
+        except Exception as exc:  # noqa: BLE001
+            R.violation({"level": "v2c", "values": [], "forms": None, "rid": rid, "err_index": 0, "label": "many-pdus", "max_size": 65507}, "PDU number %d of this process could not be decoded: %r" % (i + 1, exc), None)
+            return
+        if got != (rid, pdu["varbinds"]):
+            R.violation({"level": "v2c", "values": [], "forms": None, "rid": rid, "err_index": 0, "label": "many-pdus", "max_size": 65507}, "PDU number %d of this process decodes to %r, its octets say %r" % (i + 1, str(got)[:160], str((rid, pdu["varbinds"]))[:160]), None)
+            return
+        del seq, content
+    R.evaluations += n
+    R.mon["pdus_decoded_in_a_row"] += n
+
+
 def repoll(R):
     """A poller asks for the same 30 objects again and again while their values change;
     every response has the same length and layout, and the datagrams of earlier polls are
@@ -416,6 +440,8 @@ def run(R):
                 R.mon["max_datagram_levels"] += 1
     if R.shard == 3 % R.nshards:
         repoll(R)
+    if R.shard == 1 % R.nshards:
+        many_pdus(R)
     typecontracts.report(R, contracts, decide=False)
     for c in contracts:
         c.detach()
@@ -425,6 +451,9 @@ def replay(R, v):
     c = v["case"]
     if str(c.get("label", "")).startswith("repoll"):
         repoll(R)
+        return
+    if c.get("label") == "many-pdus":
+        many_pdus(R)
         return
 
     def fix(x):
